@@ -491,6 +491,14 @@ func checkText(c TextCase) error {
 		if cv.Big().Cmp(v) != 0 {
 			return fail("Big() = %s", cv.Big())
 		}
+		// the *big.Int is the caller's: doing arithmetic on it must not show in any later conversion
+		mine := cv.Big()
+		mine.Add(mine, big.NewInt(7)).Lsh(mine, 3)
+		if again := cv.Big(); again.Cmp(v) != 0 || cv.String() != forms["String"] || cv.ExactString() != forms["ExactString"] {
+			got, str, exact := again.String(), cv.String(), cv.ExactString()
+			mine.Rsh(mine, 3).Sub(mine, big.NewInt(7)) // leave nothing behind for later cases
+			return stats.Failf("C15/big-shared", "%s: after arithmetic on an earlier Big() result, Big() = %s, String() = %q, ExactString() = %q", c.V, got, str, exact)
+		}
 		s := forms["String"]
 		nt := strings.Contains(s, ".") || strings.HasSuffix(s, "TS") || v.Cmp(max128) == 0
 		rec.Case(stats.FP("rt", c.V), nt, "text:rt", "suffix:"+s[strings.LastIndexByte(s, ' ')+1:])
